@@ -1,7 +1,7 @@
 """C17 — after a cancel is accepted no further task starts and the workflow ends (engine-level: Mode-A trace differential + monitors; see harness/engine_suites.py)."""
 from __future__ import annotations
 
-from harness import engine_pairs, engine_suites, synth_suites
+from harness import conc_suite, engine_pairs, engine_suites, synth_suites
 
 RULE = ("random workflows (1-5 stages, every join type, scripted task outcomes incl. polling / transient / jump / suspend) x "
         "delivery schedules (fifo | random order | random + redelivery of unacknowledged messages | arbitrary incl. early re-polls), "
@@ -12,7 +12,8 @@ RULE = ("random workflows (1-5 stages, every join type, scripted task outcomes i
         "stage done (CompleteWorkflow pending) plus a pushed CancelWorkflow; StartWorkflow / CompleteWorkflow x CancelWorkflow in both directions, B's whole delivery at EVERY "
         "legal DB-call point of A (in particular between the status-writing handler's read of the workflow row and its commit), then FIFO drain; judged on the committed "
         "history of the workflow row: once is_canceled = 1 was committed it is 1 at the end and no task execution begins; "
-        "PLUS the pause / resume dimension (harness/synth_suites.py, family 'pause', IMPLEMENTATION-ONLY: monitors on real-engine traces, no model line; signatures prefixed pause:): plain workflows (engine_suites.gen_spec w0, sometimes one suspending task) AND synthetic-stage ones; operator ops p = store.pause (only while the workflow is RUNNING), u = Orchestrator.unpause, r = store.resume injected at random steps into fifo | random | redelivery | starve schedules, combined with a cancel (often issued together with the un-pause, or while paused), signals and a second pause; every third unit is the directed 'parked' member (2-3 parallel stages all parked PAUSED, then un-pause or cancel + un-pause, random order); in 20 % of the runs nobody un-pauses, otherwise the operator keeps at it until nothing is paused (settle_pause: unpause, drain, store.resume if the row is still PAUSED with nothing parked); a cancel in every run; judged by smon_c17 (cancel accepted while paused: no execution afterwards, workflow final - CANCELED unless a failure was decided -, every unfinished stage incl. parked ones CANCELED) and the transition-table monitor")
+        "PLUS the pause / resume dimension (harness/synth_suites.py, family 'pause', IMPLEMENTATION-ONLY: monitors on real-engine traces, no model line; signatures prefixed pause:): plain workflows (engine_suites.gen_spec w0, sometimes one suspending task) AND synthetic-stage ones; operator ops p = store.pause (only while the workflow is RUNNING), u = Orchestrator.unpause, r = store.resume injected at random steps into fifo | random | redelivery | starve schedules, combined with a cancel (often issued together with the un-pause, or while paused), signals and a second pause; every third unit is the directed 'parked' member (2-3 parallel stages all parked PAUSED, then un-pause or cancel + un-pause, random order); in 20 % of the runs nobody un-pauses, otherwise the operator keeps at it until nothing is paused (settle_pause: unpause, drain, store.resume if the row is still PAUSED with nothing parked); a cancel in every run; judged by smon_c17 (cancel accepted while paused: no execution afterwards, workflow final - CANCELED unless a failure was decided -, every unfinished stage incl. parked ones CANCELED) and the transition-table monitor"
+        " PLUS the concurrency-limit / cancel-before-start family (harness/conc_suite.py, IMPLEMENTATION-ONLY, signatures prefixed conc:): 2-4 workflows with one pipeline_config_id, is_limit_concurrent, limit 1 | 2, keep_waiting_pipelines on | off in ONE database and queue, started together or staggered, store.cancel() (the flag only) on some of them BEFORE their start, Orchestrator.cancel at random moments, in-order or random delivery; oracles: drained => every workflow final or BUFFERED while the limit is really used up, never more RUNNING than the limit, a workflow whose cancel flag is set is final once the queue is drained")
 ASSUMPTIONS = ["delays are abstracted: budget-respecting schedules deliver a delayed message only when no immediate one is pending",
                "per-workflow circuit breaker disabled in the harness (volatile state outside the model)",
                "pause / resume dimension: 'un-paused' means the operator idiom of the repo's tests and demos (Orchestrator.unpause, then store.resume when the row is still PAUSED with nothing parked), repeated up to three times at quiescence; store.pause is only issued while the workflow row is RUNNING (store.pause() itself writes PAUSED over any status, also a final one: operator misuse, not generated); a message that raises on every delivery is dead-lettered after max_attempts deliveries (real check_and_move_expired) and the first such loss names the cause of what follows (`…@<msg>-dead-lettered:<exception>-while-workflow-<status>`)",
@@ -38,6 +39,8 @@ def run(ctx) -> None:
         synth_suites.run_for(ctx, "C17")
         # pause / resume dimension (plain and synthetic-stage workflows): implementation-only as well
         synth_suites.run_for(ctx, "C17", family="pause")
+        # concurrency limit / purge / cancel flag set before the start (store.cancel): implementation-only, several workflows
+        conc_suite.run_for(ctx, "C17")
     except BaseException:
         pairs["pool"].terminate()
         raise
@@ -52,6 +55,8 @@ def replay(ctx, body) -> int:
     rp = body.get("replay") or body
     if isinstance(rp, dict) and "enginepair" in rp:
         return engine_pairs.replay(ctx, body, "C17")
+    if conc_suite.is_replay(body):
+        return conc_suite.replay(ctx, body)
     if synth_suites.is_synth_replay(body):
         return synth_suites.replay(ctx, body)
     return engine_suites.replay(ctx, body)
